@@ -13,7 +13,12 @@ independent description of that language (cross-checked against the parser on ev
 Proof extension (composition with C10): on the small cases the COMPOSED model sem_eval_earley
 (Logic/SemPredsParser.v: mk_parser modelled over the Earley model Grammar/Earley.v) is evaluated as
 well and must reproduce the implementation's outcome exactly — same replacement tree, SyntaxError
-iff the model's parser rejects (Coq function `agrees_full`)."""
+iff the model's parser rejects (Coq function `agrees_full`).
+
+Proof extension 2: on the same cases the guard of the FULL equivalences (C20_*_assign_iff,
+C20_request_guard_total: grammar_guard, acyclicb of the specialised grammar, fuel bound —
+Logic/SemPredsGuard.v) is evaluated in Coq; evidence key `e2e_guard` reports how many parser
+requests lie inside it and what the implementation answered there."""
 import itertools, json, random, re, string
 import lib
 from lib import g_str, g_bool, g_tree, g_Z, g_nat, g_grammar
@@ -531,6 +536,54 @@ def defect_both_present():
     return o == ("bool", False)
 
 
+def e2e_guard_stats(run, lits, metas, defs_e2e):
+    """Evaluate the guards of Logic/SemPredsGuard.v in Coq (theorems C20_request_guard_total,
+    C20_*_assign_iff): how many end-to-end cases make a parser request, how many of those lie inside
+    the guard, and what the implementation answered there."""
+    imports = "SemPreds SemPredsParser SemPredsGuard Earley EarleyFuel EarleyAcyclic"
+    out = lib.coq_eval("c20g", imports,
+                       "(grammar_guard G, map (fun nt => acyclicb (cgram (mk_grammar G nt) START)) (map fst G))",
+                       extra_defs=defs_e2e)
+    m = re.search(r"=\s*\((true|false),\s*\[([^\]]*)\]", out)
+    if not m:
+        raise RuntimeError("guard evaluation failed: " + out[-1500:])
+    gguard = m.group(1) == "true"
+    acyc = re.findall(r"true|false", m.group(2))
+    # one Coq run for both questions: (true, c) -> "c makes no parser request", (false, c) -> "no request or inside the guard"
+    ok = ("fun p : bool * (call * iout) => if fst p then negb (is_request FX (fst (snd p))) "
+          "else negb (is_request FX (fst (snd p))) || request_guard_tab GT NMAX FX (fst (snd p))")
+    # the table is computed once per case file; C20_request_guard_tab_sound: request_guard_tab GT NMAX implies request_guard FUEL G
+    defs_e2e = defs_e2e + "Definition NMAX := 14.\nDefinition GT := Eval vm_compute in (guard_table FUEL G NMAX).\n"
+    n = len(lits)
+    bad, dt = lib.coq_mismatches("c20g", imports, ok, [f"(true, {c})" for c in lits] + [f"(false, {c})" for c in lits],
+                                 shard=700, extra_defs=defs_e2e)
+    requests = sorted(i for i in bad if i < n)
+    outside = sorted(i - n for i in bad if i >= n)
+    inside = [i for i in requests if i not in set(outside)]
+    answered = {"replacement_tree": 0, "syntax_error": 0, "other": 0}
+    for i in inside:
+        o = metas[i][2]
+        answered["replacement_tree" if o[0] == "assign" else "syntax_error" if o == ("raise", "SyntaxErr") else "other"] += 1
+    why = {"start_rooted": 0, "other": 0}
+    for i in outside:
+        a0 = metas[i][1][0]
+        why["start_rooted" if metas[i][0] != "octal" and isinstance(a0, T) and a0.value == "<start>" else "other"] += 1
+    stats = {"grammar_guard": gguard, "specialised_grammars_acyclic": f"{acyc.count('true')}/{len(acyc)}",
+             "cases": n, "parser_requests": len(requests), "inside_guard": len(inside),
+             "inside_guard_impl_outcomes": answered, "outside_guard": why, "coq_seconds": round(dt, 1)}
+    if not gguard:
+        run.violation({"kind": "harness grammar outside grammar_guard (canonical_form / unique keys / <start> on a right-hand side)",
+                       "obligation": "harness/c20.py GRAMMAR satisfies the hypotheses of the C20_*_earley theorems"},
+                      found_input=False)
+    if answered["other"]:
+        # inside the guard the composed model answers tree | SyntaxError (C20_request_guard_total); the end-to-end
+        # comparison above has already reported the disagreement, this names the theorem
+        run.violation({"kind": "implementation outcome inside request_guard is neither a replacement nor SyntaxError",
+                       "n": answered["other"], "obligation": "C20_request_guard_total + end-to-end correspondence"},
+                      found_input=False)
+    return stats
+
+
 def run(run):
     rng = random.Random(run.seed)
     thorough = run.tier == "thorough"
@@ -653,6 +706,17 @@ def run(run):
     except RuntimeError as e:
         run.violation({"kind": "correspondence-not-evaluable", "obligation": "SemPredsParser.v mk_parse cases",
                        "error": str(e)[-2000:]}, found_input=False)
+
+    # ---- the guard of the FULL equivalences (C20_*_assign_iff, C20_request_guard_total), evaluated in Coq:
+    # grammar_guard G once, acyclicb of every specialised grammar mk_grammar G nt, and per end-to-end case
+    # request_guard FUEL G FX c (= parser request for nt <> <start>, acyclicb (cgram (mk_grammar G nt) START),
+    # fuel_bound .. |s| <= FUEL).  Inside the guard the theorem leaves exactly: replacement tree | SyntaxError.
+    if pick:
+        try:
+            run.cov["e2e_guard"] = e2e_guard_stats(run, [cases[i] for i in pick], [meta[i] for i in pick], defs_e2e)
+        except RuntimeError as e:
+            run.violation({"kind": "correspondence-not-evaluable", "obligation": "SemPredsGuard.v request_guard cases",
+                           "error": str(e)[-2000:]}, found_input=False)
 
     # ---- the property itself on every observed outcome (spec-side oracle, independent of the model) ----
     prop_fail = []
